@@ -71,10 +71,17 @@ namespace probe {
       return static_cast<char*>(raw) + header;
    }
 
-   void release(void* p)
+   long sized_delete_mismatches = 0;           // operator delete(p, n) called with n different from the size the block was allocated with
+
+   void release(void* p, std::size_t claimed = static_cast<std::size_t>(-1))
    {
       if (p == nullptr)
          return;
+      if (claimed != static_cast<std::size_t>(-1)) {
+         const void* raw0 = static_cast<const char*>(p) - header;
+         ASAN_UNPOISON_MEMORY_REGION(raw0, header);
+         if (static_cast<const Head*>(raw0)->size != claimed) ++sized_delete_mismatches;
+      }
       void* raw = static_cast<char*>(p) - header;
       ASAN_UNPOISON_MEMORY_REGION(raw, header);
       auto h = static_cast<Head*>(raw);
@@ -565,6 +572,18 @@ namespace probe {
          in_place = lexicons % 5 != 4;
          { Track t; lex = in_place ? new (lexicon_storage) ipr::impl::Lexicon : new ipr::impl::Lexicon; }
          ++lexicons;
+         {
+            // live use of the set algebra on values with coordinates beyond the named ones (vendor qualifiers / specifiers): decomposing
+            // them reads nothing outside the library's tables (observed by ASan)
+            const ipr::Lexicon& il = *lex;
+            std::size_t n = 0;
+            for (std::uintptr_t bits : { std::uintptr_t{1} << 3, std::uintptr_t{1} << 18, std::uintptr_t{1} << 31, std::uintptr_t{1} << 40,
+                                         std::uintptr_t{1} << 63, ~std::uintptr_t{0}, (std::uintptr_t{1} << 40) | 1 }) {
+               n += il.decompose(ipr::Qualifiers{bits}).size();
+               n += il.decompose(ipr::Specifiers{bits}).size();
+            }
+            touched += n;
+         }
          out << "new\n";
       }
 
@@ -586,6 +605,7 @@ namespace probe {
          out << "destroyed leak=" << (live_blocks - base_blocks) << " bad=0\n";
          if (accounting)
             out << "@bytes_back_to_baseline=" << (live_bytes == base_bytes ? 1 : 0) << '\n';
+         out << "@blocks_released_with_the_size_they_were_allocated_with=" << (sized_delete_mismatches == 0 ? 1 : 0) << '\n';
 #if PROBE_ASAN
          if (check_leaks)
             out << "@lsan_clean=" << (__lsan_do_recoverable_leak_check() == 0 ? 1 : 0) << '\n';
@@ -638,8 +658,8 @@ void* operator new(std::size_t n, const std::nothrow_t&) noexcept { try { return
 void* operator new[](std::size_t n, const std::nothrow_t&) noexcept { try { return probe::allocate(n); } catch (...) { return nullptr; } }
 void operator delete(void* p) noexcept { probe::release(p); }
 void operator delete[](void* p) noexcept { probe::release(p); }
-void operator delete(void* p, std::size_t) noexcept { probe::release(p); }
-void operator delete[](void* p, std::size_t) noexcept { probe::release(p); }
+void operator delete(void* p, std::size_t n) noexcept { probe::release(p, n); }
+void operator delete[](void* p, std::size_t n) noexcept { probe::release(p, n); }
 void operator delete(void* p, const std::nothrow_t&) noexcept { probe::release(p); }
 void operator delete[](void* p, const std::nothrow_t&) noexcept { probe::release(p); }
 
